@@ -193,6 +193,39 @@ def run(facts, tier):
                     r3.violate(f"caller/{N[a]['def']}", f"`{N[a]['name'][:120]}` (native {nm}) requests the system time zone; only {sorted(allowed_names)} may", where=sp)
     rules.append(r3.finish())
 
+    # R6.5: the one documented writer (--in-place) is conditional on the option
+    r5 = Rule("R6.5", "outside the interactive repl the command-line driver changes the file system (temporary file, rename, chmod) only under the `--in-place` option: every such call in the driver is control-dependent on a test of Cli.in_place", floor=3)
+    from mirutil import Body, op_local
+    cli = [a for a in facts.items("jaq")["adts"] if a["def"] == "jaq::cli::Cli"]
+    rm = facts.mir_fn("jaq::real_main")
+    if not cli or rm is None:
+        r5.missing_anchor("jaq::cli::Cli / jaq::real_main")
+    else:
+        fields = [f["name"] for f in cli[0]["variants"][0]["fields"]]
+        if "in_place" not in fields:
+            r5.missing_anchor("field Cli.in_place")
+        else:
+            idx = fields.index("in_place")
+            b = Body(rm)
+            flag_locals = set()
+            for bb in b.bbs:
+                for s_ in bb["st"]:
+                    if s_.get("k") == "A" and s_["r"].get("k") == "Use":
+                        pl = s_["r"]["o"].get("c") or s_["r"]["o"].get("m")
+                        if pl and b.locals[pl["l"]]["ty"].endswith("jaq::cli::Cli") and [e for e in (pl.get("pr") or []) if e != "*"] == [{"f": idx}]:
+                            flag_locals.add(s_["p"]["l"])
+            sws = [i for i, bb in enumerate(b.bbs) if bb["t"]["k"] == "Switch" and op_local(bb["t"]["o"]) in flag_locals]
+            MUT = r"^tempfile::|^std::fs::(set_permissions|remove_file|rename|write|copy|create_dir|remove_dir|hard_link|File::create)"
+            sites = b.find_calls(MUT)
+            if not sws:
+                r5.violate("no-test", "real_main never branches on Cli.in_place")
+            for s_ in sites:
+                ok = any(b.controlled_by(s_, sw) for sw in sws)
+                r5.examined((Body.callee(b.bbs[s_]["t"]), b.bbs[s_]["t"]["sp"]), True, {"call": Body.callee(b.bbs[s_]["t"]), "only_under_in_place": ok})
+                if not ok:
+                    r5.violate(f"unconditional/{Body.callee(b.bbs[s_]['t'])}", f"`{Body.callee(b.bbs[s_]['t'])}` in the command-line driver is not conditional on --in-place: a plain run would create/rename/chmod files", where=b.bbs[s_]["t"]["sp"])
+    rules.append(r5.finish())
+
     # R6.4: resolution completeness (soundness side condition of the graph)
     r4 = Rule("R6.4", "every indirect call reachable during execution resolves by exact erased signature and every virtual call has at least one implementor (otherwise the arity fallback is used and listed)", floor=100)
     unres = [(a, s) for a, s, c in g.unresolved_indirect if a in par_all]
